@@ -195,9 +195,13 @@ def guards(I):
         r = call_async(I, I.getattr(b, "drop"), MsgVal("drop", None, (), {}, None))
         w.check(n_drop, And(r[0] == "ok" and not env.emitted and b.bundling is False, Eq(b._sequence_counters["primary"], nxt["primary"])), rp)
     elif case == "checkpoint":
+        # checkpoint state is global: the guard must look at every open run, whatever run key the checkpoint message itself carries
         other = new_bundler(I, env)
-        re_ = make_re(I, env, _run_bundlers={"a": other, None: b}, _deferred_pause_requested=False)
-        r = call_async(I, I.getattr(re_, "_checkpoint"), MsgVal("checkpoint", None, (), {}, None))
+        bkey = w.choose([None, "a"], "run key of the bundling run")
+        mkey = w.choose([None, "a", "b"], "run key of the checkpoint message")
+        okey = "a" if bkey is None else None
+        re_ = make_re(I, env, _run_bundlers={okey: other, bkey: b}, _deferred_pause_requested=False)
+        r = call_async(I, I.getattr(re_, "_checkpoint"), MsgVal("checkpoint", None, (), {}, mkey))
         w.check(f"{RE}._checkpoint#raises[IllegalMessageSequence while some run is bundling]",
                 r[0] == "raise" and exc_is(I, r[1], IMS) and not env.emitted, rp)
     else:
